@@ -10,7 +10,10 @@
 //!    stream long enough for the list (nothing of this size is ever materialised). Only the size contract is judged.
 //!
 //! Mutants caught (tools/mutant_run.sh H <diff> C15 quick):
-//!   /verif/mutants/C15-placeholder-9-dummies.diff
+//!   /verif/mutants/C15-pad-one-short.diff           -> `shorter-than-placeholder ... by=-1`
+//!   /verif/mutants/C15-oversize-tolerance-32.diff   -> `longer-than-placeholder ... by=+N` (N <= 32)
+//! History: on the tree first examined sign_embeddable returned up to +118 bytes with no error for 123 of the 300 (n, offset
+//! class, length class) combinations (from n=6 with 9-byte integers, every combination from n=10); fixed by a9009da88/bf7cd2f6a.
 
 use c2pa::{Builder, BuilderIntent, Context, DigitalSourceType, HashRange, Reader, Signer, SigningAlg};
 use kit::{assets, defs::Def, par, sdk, Run};
@@ -197,9 +200,10 @@ impl Read for Sparse {
         }
         let n = (buf.len() as u64).min(self.len - self.pos) as usize;
         let h = self.head.len() as u64;
-        for (i, b) in buf[..n].iter_mut().enumerate() {
-            let p = self.pos + i as u64;
-            *b = if p < h { self.head[p as usize] } else { 0 };
+        buf[..n].fill(0);
+        if self.pos < h {
+            let k = ((h - self.pos) as usize).min(n);
+            buf[..k].copy_from_slice(&self.head[self.pos as usize..self.pos as usize + k]);
         }
         self.pos += n as u64;
         self.served += n as u64;
@@ -367,8 +371,7 @@ pub fn run_case(c: &Case) -> Result<Res, String> {
 static STATS: std::sync::OnceLock<kit::defs::KeyStats> = std::sync::OnceLock::new();
 
 fn violation(run: &Run, key: String, what: String, case: Value) {
-    STATS.get_or_init(Default::default).add(&key, &what);
-    run.violation(key, what, case);
+    STATS.get_or_init(Default::default).violation(run, 10, key, what, case);
 }
 
 fn judge(run: &Run, c: &Case, r: Result<Res, String>) {
@@ -395,11 +398,11 @@ fn judge(run: &Run, c: &Case, r: Result<Res, String>) {
                 run.outcome("same-size");
             } else if d > 0 {
                 run.outcome("longer");
-                violation(run, format!("longer-than-placeholder n={:02} co={} cl={}", c.n, c.co, c.cl),
+                violation(run, format!("longer-than-placeholder n={:02} co={} cl={} by=+{d}", c.n, c.co, c.cl),
                     format!("{}: placeholder {} bytes, sign_embeddable returned {} bytes (+{d}), no error; exclusions {:?}", c.id(), res.placeholder, signed, res.ranges), c.to_json());
             } else {
                 run.outcome("shorter");
-                violation(run, format!("shorter-than-placeholder n={:02} co={} cl={}", c.n, c.co, c.cl),
+                violation(run, format!("shorter-than-placeholder n={:02} co={} cl={} by={d}", c.n, c.co, c.cl),
                     format!("{}: placeholder {} bytes, sign_embeddable returned {} bytes ({d})", c.id(), res.placeholder, signed), c.to_json());
             }
             if c.real && d == 0 {
@@ -415,7 +418,9 @@ fn judge(run: &Run, c: &Case, r: Result<Res, String>) {
 }
 
 pub fn cases(thorough: bool) -> (Vec<Case>, Vec<Case>, Vec<Case>) {
-    let algs: Vec<&str> = if thorough { sdk::ALGS.iter().map(|a| a.0).collect() } else { vec!["ed25519"] };
+    // thorough: one algorithm per signature family (the COSE signature box is padded to the reserve, so the algorithm only
+    // changes the reserve size)
+    let algs: Vec<&str> = if thorough { vec!["ed25519", "es384", "ps256"] } else { vec!["ed25519"] };
     let mut real = vec![];
     let mut sized = vec![];
     let mut pure = vec![];
@@ -442,9 +447,10 @@ pub fn cases(thorough: bool) -> (Vec<Case>, Vec<Case>, Vec<Case>) {
         }
     }
     if thorough {
-        for n in 1..=12usize {
+        // each of these hashes 4 GiB of the virtual stream (tens of CPU seconds in the checked build): n in {1, 6, 12}
+        for n in [1usize, 6, 12] {
             for cl in 0..5 {
-                for reserve_extra in [0usize, 5000] {
+                for reserve_extra in [0usize] {
                     pure.push(Case { real: false, fmt: "jpeg".into(), n, co: 4, cl, reserve_extra, rich: false, alg: "ed25519".into(), pure: true });
                 }
             }
@@ -461,7 +467,7 @@ pub fn run(run: &Run, replay: Option<&Value>) {
               `sized` cases hash a sparse virtual stream long enough for the list (for offsets >= 2^32 the first of the n ranges bridges [asset end, 2^32) so that 4 GiB need not be hashed; \
               the un-bridged lists are run in the thorough tier). Ranges overlap when a class is too narrow for n disjoint ranges. \
               non-trivial = distinct cases in which sign_embeddable returned bytes (so the size contract was actually judged).");
-    run.assume("signer: repository Ed25519 test credentials in the Context (thorough: all 7 algorithms); intent Create; no dynamic assertions");
+    run.assume("signer: repository Ed25519 test credentials in the Context (thorough: ed25519, es384, ps256); intent Create; no dynamic assertions");
     run.assume("offset class <24 is impossible for png/jxl (fixed headers are longer) and >=2^32 for any real asset; those real cases are not in the space");
     if let Some(c) = replay {
         let case = Case::from_json(c);
@@ -493,12 +499,12 @@ pub fn run(run: &Run, replay: Option<&Value>) {
     run.space("real single-exclusion cases: format x feasible offset class x reserve x definition (x alg)", real.len() as u64, true);
     run.space("sized cases: format(6) x n(1..12) x offset class(5) x length class(5) x reserve(2) x definition(2) (x alg), minus n=1 with offsets >= 2^32", sized.len() as u64, true);
     if !pure.is_empty() {
-        run.space("un-bridged lists with every offset >= 2^32 (4 GiB of the virtual stream is hashed): jpeg x n(12) x length class(5) x reserve(2)", pure.len() as u64, true);
+        run.space("un-bridged lists with every offset >= 2^32 (4 GiB of the virtual stream is hashed): jpeg x n{1,6,12} x length class(5), default reserve", pure.len() as u64, true);
     }
     par::for_each(&real, |c| judge(run, c, run_case(c)));
     par::for_each(&sized, |c| judge(run, c, run_case(c)));
     par::for_each(&pure, |c| judge(run, c, run_case(c)));
-    STATS.get_or_init(Default::default).dump("C15");
+    STATS.get_or_init(Default::default).finish(run, "C15");
     for c in [&sized[0], &sized[sized.len() / 2], &sized[sized.len() - 1]] {
         if let Ok(r) = run_case(c) {
             run.sample(json!({"case": c.to_json(), "exclusions": r.ranges, "placeholder_len": r.placeholder, "signed_len": r.signed, "error": r.err, "bytes_hashed": r.hashed_bytes}));
